@@ -17,12 +17,112 @@ import (
 func (w *World) repairWriteSites() []ioSite {
 	var out []ioSite
 	for _, s := range w.fileIOSites() {
+		if s.Method != "WriteFile" {
+			continue
+		}
 		n := shortName(s.Fn)
-		if s.Method == "WriteFile" && (n == "(*par1.Decoder).Repair" || n == "(*par2.Decoder).Repair") {
+		if n == "(*par1.Decoder).Repair" || n == "(*par2.Decoder).Repair" {
 			out = append(out, s)
+			continue
+		}
+		// the write may have been moved into a private helper that Repair calls once
+		owner := w.writerOwner(s.Fn)
+		if owner != "(*par1.Decoder).Repair" && owner != "(*par2.Decoder).Repair" {
+			continue
+		}
+		if ls := w.liftWrite(s, w.Fn(owner)); ls != nil {
+			s2 := s
+			s2.Fn = w.Fn(owner)
+			s2.Lift = ls
+			out = append(out, s2)
 		}
 	}
 	return out
+}
+
+// liftWrite expresses a WriteFile(path, data) invoke inside helper h (called exactly once, directly
+// from the writer) in the writer's terms. The helper must hand the write's error back unchanged:
+// every return after the write returns the write's error value, or nil where that value is known nil.
+func (w *World) liftWrite(s ioSite, owner *ssa.Function) *liftedSite {
+	h := s.Fn
+	site := w.uniqueSite(h)
+	if site == nil || owner == nil || site.Parent() != owner || len(s.Call.Common().Args) != 2 {
+		return nil
+	}
+	wv := s.Call.Value()
+	if wv == nil {
+		return nil
+	}
+	eidx := errResultIndex(h.Signature)
+	if len(eidx) != 1 {
+		return nil
+	}
+	for _, b := range h.Blocks {
+		ret, ok := b.Instrs[len(b.Instrs)-1].(*ssa.Return)
+		if !ok || !instrDominates(s.Call, ret) {
+			continue
+		}
+		ev := ret.Results[eidx[0]]
+		if ev == ssa.Value(wv) {
+			continue
+		}
+		okNil := false
+		if isNilConst(ev) {
+			for _, c := range cmpsAt(b) {
+				if c.Op == token.EQL && c.Y != nil && ((c.X == ssa.Value(wv) && isNilConst(c.Y)) || (c.Y == ssa.Value(wv) && isNilConst(c.X))) {
+					okNil = true
+				}
+			}
+		}
+		if !okNil {
+			return nil
+		}
+	}
+	ls := &liftedSite{Inner: h, At: site}
+	for _, ref := range referrersOf(site.Value()) {
+		if ex, ok := ref.(*ssa.Extract); ok && ex.Index == eidx[0] {
+			ls.Errv = ex
+		}
+	}
+	if h.Signature.Results().Len() == 1 {
+		ls.Errv = site.Value()
+	}
+	argOf := func(v ssa.Value) ssa.Value {
+		v = stripConv(v)
+		for j, prm := range h.Params {
+			if v == ssa.Value(prm) && j < len(site.Common().Args) {
+				return site.Common().Args[j]
+			}
+		}
+		return nil
+	}
+	ls.Data = argOf(s.Call.Common().Args[1])
+	ls.Path = argOf(s.Call.Common().Args[0])
+	if ls.Path == nil {
+		// the path is computed in the helper: does the helper return it on success?
+		inner := stripConv(s.Call.Common().Args[0])
+		res := h.Signature.Results()
+		for k := 0; k < res.Len(); k++ {
+			all, n := true, 0
+			for _, ret := range successReturns(h) {
+				n++
+				if k >= len(ret.Results) || stripConv(ret.Results[k]) != inner {
+					all = false
+				}
+			}
+			if all && n > 0 {
+				for _, ref := range referrersOf(site.Value()) {
+					if ex, ok := ref.(*ssa.Extract); ok && ex.Index == k {
+						ls.Path = ex
+					}
+				}
+			}
+		}
+	}
+	if ls.Data == nil || ls.Errv == nil {
+		return nil
+	}
+	return ls
 }
 
 func (w *World) encoderWriteSites() []ioSite {
@@ -249,14 +349,16 @@ func ruleWGUARD(w *World, r *Report, requireErrorReturn bool) {
 	for _, s := range sites {
 		args := s.Call.Common().Args
 		key := s.key()
-		pos := w.ipos(s.Call)
+		pos := w.ipos(s.at())
 		if len(args) != 2 {
 			r.unk("WGUARD", key, pos, "WriteFile call does not have (path, data) arguments")
 			continue
 		}
-		pathArg, data := stripConv(args[0]), stripConv(args[1])
+		// the path as the write receives it (its derivation from the entry is looked at through a helper's
+		// parameters), the data as the Repair function sees it
+		pathArg, data := stripConv(args[0]), stripConv(s.dataVal())
 		pkg := w.fnPkg(s.Fn)
-		blk := s.Call.Block()
+		blk := s.at().Block()
 
 		var entryVal ssa.Value // the caller-side value of the entry when the checks live in a helper
 		check := func(kind string, fieldWant string, fns ...string) (hashGuard, bool) {
@@ -300,8 +402,13 @@ func ruleWGUARD(w *World, r *Report, requireErrorReturn bool) {
 			if pc == nil || len(pc.Call.Args) < 2 {
 				r.bad("WGUARD", key+":path-entry", pos, "the path written is not the result of getFilePath(entry)")
 			} else {
-				ep := valuePath(pc.Call.Args[1])
-				if entryVal != nil && sameElem(pc.Call.Args[1], entryVal) {
+				entryArg := w.up(pc.Call.Args[1])
+				ep := valuePath(entryArg)
+				// getFilePath may be handed the entry's filename field instead of the entry
+				if strings.HasSuffix(ep.Path, ".filename") {
+					ep.Path = strings.TrimSuffix(ep.Path, ".filename")
+				}
+				if entryVal != nil && sameElem(entryArg, entryVal) {
 					r.ok("WGUARD", key+":path-entry", pos, "path = getFilePath(e) with e the entry handed to the helper that checked the hashes")
 				} else if sameRoot(ep, gmd.path) && ep.Path == "" {
 					r.ok("WGUARD", key+":path-entry", pos, "path = getFilePath("+ep.String()+"), the entry whose hashes were checked")
@@ -436,11 +543,11 @@ func ruleREPORT(w *World, r *Report) {
 			for _, v := range vals {
 				found := false
 				for _, s := range byFn[fn] {
-					wc := s.Call.Value()
-					if wc == nil {
+					wc := s.errVal()
+					if wc == nil || s.pathVal() == nil {
 						continue
 					}
-					if stripConv(s.Call.Common().Args[0]) != stripConv(v) {
+					if stripConv(s.pathVal()) != stripConv(v) {
 						continue
 					}
 					for _, c := range cmpsAt(a.Block()) {
@@ -461,9 +568,9 @@ func ruleREPORT(w *World, r *Report) {
 		// converse: success edge must reach an append before back-edge/return
 		for _, s := range byFn[fn] {
 			key := s.key() + ":success-reported"
-			wc := s.Call.Value()
+			wc := s.errVal()
 			if wc == nil {
-				r.unk("REPORT", key, w.ipos(s.Call), "WriteFile used as a statement (go/defer): result unobservable")
+				r.unk("REPORT", key, w.ipos(s.at()), "WriteFile used as a statement (go/defer): result unobservable")
 				continue
 			}
 			// find the If testing wc
@@ -486,7 +593,7 @@ func ruleREPORT(w *World, r *Report) {
 				}
 			}
 			if succ == nil {
-				r.bad("REPORT", key, w.ipos(s.Call), "the error returned by WriteFile is not tested: success cannot be told from failure")
+				r.bad("REPORT", key, w.ipos(s.at()), "the error returned by WriteFile is not tested: success cannot be told from failure")
 				continue
 			}
 			// appended path blocks
@@ -494,12 +601,12 @@ func ruleREPORT(w *World, r *Report) {
 			for _, a := range apps {
 				vals, _ := appendedValues(a)
 				for _, v := range vals {
-					if stripConv(v) == stripConv(s.Call.Common().Args[0]) {
+					if s.pathVal() != nil && stripConv(v) == stripConv(s.pathVal()) {
 						appBlocks[a.Block()] = true
 					}
 				}
 			}
-			wb := s.Call.Block()
+			wb := s.at().Block()
 			bad := ""
 			seen := map[*ssa.BasicBlock]bool{}
 			var dfs func(b *ssa.BasicBlock)
@@ -546,11 +653,11 @@ func ruleSKIPOK(w *World, r *Report) {
 	r.floor("SKIPOK", "WriteFile sites in Repair functions", len(sites), 2)
 	for _, s := range sites {
 		key := s.key()
-		pos := w.ipos(s.Call)
+		pos := w.ipos(s.at())
 		switch w.fnPkg(s.Fn) {
 		case "par1":
 			found := false
-			for _, c := range cmpsAt(s.Call.Block()) {
+			for _, c := range cmpsAt(s.at().Block()) {
 				if c.Op != token.EQL {
 					continue
 				}
@@ -573,7 +680,7 @@ func ruleSKIPOK(w *World, r *Report) {
 			// find dominating fact "X is false" where X is a load of an element of a []bool
 			var wasOK ssa.Value
 			var idx ssa.Value
-			for _, c := range cmpsAt(s.Call.Block()) {
+			for _, c := range cmpsAt(s.at().Block()) {
 				if c.Op != token.EQL || c.Y != nil {
 					continue
 				}
@@ -645,9 +752,9 @@ func ruleSKIPOK(w *World, r *Report) {
 			// index agreement with the entry whose path is written
 			pc := callOf(s.Call.Common().Args[0], "(*par2.Decoder).getFilePath")
 			if pc != nil && len(pc.Call.Args) == 2 {
-				ep := valuePath(pc.Call.Args[1])
+				ep := valuePath(w.up(pc.Call.Args[1]))
 				agree := false
-				if ld, ok := stripConv(pc.Call.Args[1]).(*ssa.UnOp); ok && ld.Op == token.MUL {
+				if ld, ok := w.up(pc.Call.Args[1]).(*ssa.UnOp); ok && ld.Op == token.MUL {
 					if ia, ok := ld.X.(*ssa.IndexAddr); ok && ia.Index == idx {
 						agree = true // the entry is read straight from the set with the loop index
 					}
